@@ -24,7 +24,7 @@ MANIFEST = {
              "transmit, no effect of handle_timeout (C08_after_drain_silence); TimedOut only at/after the Idle deadline, every armed "
              "Idle deadline is >= idle timeout after every accepted packet, it only ever moves to instant + max(idle, 3 PTO) on an "
              "accepted packet or the first ack-eliciting send after one, a fed connection does not time out "
-             "(C08_timed_out_only_at_deadline, C08_idle_window_lower/upper, C08_fed_connection_never_times_out); "
+             "(C08_timed_out_only_at_deadline, C08_idle_window_lower/upper, C08_fed_connection_never_times_out); while no idle timeout is negotiated the Idle timer is not armed and TimedOut is never reported (C08_no_negotiated_timeout_no_idle_timer, C08_timed_out_needs_negotiated_timeout - true of the code since the stale-idle-timer repair, C08_stale_idle_timer_refuted_before_fix is the witness on the code as found); "
              "negotiate_max_idle_timeout laws (C08_negotiate_idle_laws); the close packet follows close() at once whatever the "
              "congestion/pacing gate, announcing the code in 1-RTT and APPLICATION_ERROR before (C08_local_close_announced_at_once). "
              "Main theorems are stated as forall h, ~KnownClass h -> ...; the known class (error result of packet processing "
